@@ -15,8 +15,9 @@
   The curve flattener (lyon_geom, property C09) is a PARAMETER:
   `Flattener π α` gives, for a curve, the `(line.from, line.to, t.end)` triples that
   `for_each_flattened_with_t` hands to its callback; `IterFlattener π` gives the points the
-  `Flattened` iterators of lyon_geom yield.  The driver instantiates both with
-  `Model/Geom/Flatten.lean` at `Float32`; the theorems hold for every flattener.
+  `Flattened` iterators of lyon_geom yield.  The driver instantiates both from what the real
+  flattener returned for each curve (advice in the CASE line); the theorems hold for every
+  flattener.
 
   Generic in the point type `π` (positions are never computed with here, only moved around) and
   in the scalar type `α` of the custom attributes.  Mathlib-free.
